@@ -84,6 +84,10 @@ def check(model: Model, run: Run) -> None:
     unescape_single_pass(model, run)
     from .c16 import matched_text_is_the_input
     matched_text_is_the_input(model, run, "G8-definition-text-matched-as-given")
+    # "every field of the result equals what the grammar denotes" for *every* parse: a result shared with an earlier parse
+    # (a memoised helper, a table the parser writes) stops equalling it as soon as a caller edits one of them
+    from .c19 import parse_results_fresh
+    parse_results_fresh(model, run, SCHEMA, "G9-parse-results-are-fresh", "what a definition parses to")
     keyword_combinations(model, run)
 
 
